@@ -43,8 +43,8 @@ def boundary_ns(isa, ty):
     V = vec_elems(isa, ty)
     s = set()
     for v in {V, max(V // 2, 1)}:
-        s |= {v - 1, v, v + 1, 2 * v - 1, 2 * v, 2 * v + 1, 3 * v, 3 * v + 1}
-    return sorted(x for x in s if 1 <= x <= 33)
+        s |= {v - 1, v, v + 1, 2 * v - 1, 2 * v, 2 * v + 1, 3 * v, 3 * v + 1, 4 * v - 1, 4 * v, 4 * v + 1, 5 * v - 1, 5 * v, 5 * v + 1}
+    return sorted(x for x in s if 1 <= x <= 41)
 
 def cases(tier, seed):
     rng = random.Random(seed)
@@ -57,13 +57,19 @@ def cases(tier, seed):
             for ty in types:
                 B = 5 if not thorough else 8
                 triples = [(M, K, N) for M in range(1, B + 1) for K in range(1, B + 1) for N in range(1, B + 1)]
+                base = [(M, K, N) for (M, K, N) in triples if M <= 2 and K <= 2 and N <= 2] + [(2, 1, 3), (3, 1, 2), (1, 3, 1), (3, 3, 3)]
+                if thorough: base = [(M, K, N) for (M, K, N) in triples if M <= 3 and K <= 3 and N <= 3]
                 if not thorough:
-                    base = [(M, K, N) for (M, K, N) in triples if M <= 3 and K <= 3 and N <= 3]
-                    triples = sorted(set(base + sample(rng, triples, 14)))
+                    triples = sorted(set(sample(rng, triples, 14)) - set(base))
                 bn = boundary_ns(isa, ty)
-                extra = [(M, K, N) for N in bn for M in (1, 3, 4) for K in (1, 4, 5)]
-                if not thorough: extra = sample(rng, [e for e in extra if e[2] <= 17], 16) + [(3, 5, n) for n in bn if n <= 17]
-                for (M, K, N) in sorted(set(triples + extra)):
+                extra = [(M, K, N) for N in bn for M in (1, 2, 3, 4) for K in (1, 4, 5)]
+                if not thorough:
+                    # every boundary N once with an odd (M%4==3) and once with an even row count, plus a sample
+                    extra = sample(rng, [e for e in extra if e[2] <= 21], 12) + [(3, 5, n) for n in bn if n <= 41] + [(2 if n > 21 else 4, 2, n) for n in bn if n <= 41]
+                for (M, K, N) in base:      # the small box in every API form (covers K=1 outer, M=N=1 inner, vectors)
+                    for k in ['map', 'own', 'lazy']:
+                        out.append(matmul_case(ty, M, K, N, cfg, k))
+                for (M, K, N) in sorted(set(triples + extra) - set(base)):
                     kind = rng.choice(['map', 'own', 'lazy']) if not thorough else None
                     for k in ([kind] if kind else ['map', 'own', 'lazy']):
                         out.append(matmul_case(ty, M, K, N, cfg, k))
@@ -83,7 +89,7 @@ def cases(tier, seed):
             for mac in ['FASTOR_MATMUL_OUTER_BLOCK_SIZE=%d' % n for n in (1, 2, 3, 4, 5)] + ['FASTOR_MATMUL_INNER_BLOCK_SIZE=%d' % n for n in (1, 2, 3, 4, 5)]:
                 cfgm = Cfg(isa, 'c++14', macros=(mac,))
                 V = vec_elems(isa, FLT)
-                for (M, K, N) in [(7, 3, 2 * V + 3), (5, 4, V), (6, 5, 3 * V + 1)]:
+                for (M, K, N) in [(7, 3, 2 * V + 3), (5, 4, V), (6, 5, 3 * V + 1), (3, 2, 5 * V + 1), (2, 3, 6 * V)]:
                     out.append(matmul_case(FLT, M, K, N, cfgm, 'own'))
                     if thorough: out.append(matmul_case(INT, M, K, N, cfgm, 'own'))
     seen = set(); res = []
